@@ -1,6 +1,8 @@
 package db19
 
 import (
+	"github.com/apmckinlay/gsuneido/core"
+	"github.com/apmckinlay/gsuneido/db19/meta"
 	"github.com/apmckinlay/gsuneido/db19/meta/schema"
 	rt "github.com/apmckinlay/gsuneido/zzverifrt"
 )
@@ -80,6 +82,20 @@ func vagree(tag string, t *ReadTran, rows []vrow) {
 	rt.Assert(tag+"/size", int(ti.Size) == size)
 }
 
+// vtouched collects every key value a vapply call involved (old and new), vconcurrent relaxes
+// "refused iff duplicate" to "duplicate implies refused" (a conflict with another transaction is
+// a legitimate refusal too)
+var vtouched []string
+var vconcurrent bool
+
+func vrefusal(label string, refused, dup bool) {
+	if vconcurrent {
+		rt.Assert(label, refused || !dup)
+	} else {
+		rt.Assert(label, refused == dup)
+	}
+}
+
 // vapply attempts one change in ut and updates the model when it is accepted. kind: 0 output a
 // new row, 1 update row #target, 2 delete row #target. Returns false if it was refused.
 func vapply(tag string, ut *UpdateTran, rows *[]vrow, kind int, name string) bool {
@@ -90,8 +106,9 @@ func vapply(tag string, ut *UpdateTran, rows *[]vrow, kind int, name string) boo
 		for _, r := range *rows {
 			dup = rt.Or(dup, rt.And(r.live, r.a == a))
 		}
+		vtouched = append(vtouched, a)
 		refused := vtry(func() { ut.Output(nil, "t", vmkrec(a, b)) })
-		rt.Assert(tag+"/output-refused-iff-duplicate", refused == dup)
+		vrefusal(tag+"/output-refused-iff-duplicate", refused, dup)
 		if !refused {
 			*rows = append(*rows, vrow{a, b, true})
 		}
@@ -107,10 +124,15 @@ func vapply(tag string, ut *UpdateTran, rows *[]vrow, kind int, name string) boo
 				dup = rt.Or(dup, rt.And(r.live, r.a == a))
 			}
 		}
-		rec := ut.Lookup("t", 0, vpk(tgt.a))
+		vtouched = append(vtouched, a, tgt.a)
+		var rec *core.DbRec
+		if vtry(func() { rec = ut.Lookup("t", 0, vpk(tgt.a)) }) {
+			rt.Assert(tag+"/lookup-fails-only-under-concurrency", vconcurrent)
+			return false
+		}
 		rt.Assert(tag+"/update-target-found", rec != nil)
 		refused := vtry(func() { ut.Update(nil, "t", rec.Off, vmkrec(a, b)) })
-		rt.Assert(tag+"/update-refused-iff-duplicate", refused == dup)
+		vrefusal(tag+"/update-refused-iff-duplicate", refused, dup)
 		if !refused {
 			(*rows)[i] = vrow{a, b, true}
 		}
@@ -119,13 +141,54 @@ func vapply(tag string, ut *UpdateTran, rows *[]vrow, kind int, name string) boo
 		i := rt.Pick(name+"_target", len(*rows))
 		tgt := (*rows)[i]
 		rt.Assume(tgt.live)
-		rec := ut.Lookup("t", 0, vpk(tgt.a))
+		vtouched = append(vtouched, tgt.a)
+		var rec *core.DbRec
+		if vtry(func() { rec = ut.Lookup("t", 0, vpk(tgt.a)) }) {
+			rt.Assert(tag+"/lookup-fails-only-under-concurrency", vconcurrent)
+			return false
+		}
 		rt.Assert(tag+"/delete-target-found", rec != nil)
 		refused := vtry(func() { ut.Delete(nil, "t", rec.Off) })
-		rt.Assert(tag+"/delete-accepted", !refused)
-		(*rows)[i].live = false
+		rt.Assert(tag+"/delete-accepted", !refused || vconcurrent)
+		if !refused {
+			(*rows)[i].live = false
+		}
 		return !refused
 	}
 }
 
 func vpersist(db *Database) { db.persist(&execPersistSingle{}, false) }
+
+// vmergeSplit merges the pending layers of tables the way the merger goroutine does - compute on
+// the current state outside UpdateState, apply later - with `between` running in the gap (a
+// commit may land there).
+func vmergeSplit(db *Database, tables []string, between func()) {
+	if len(tables) == 0 {
+		between()
+		return
+	}
+	ml := &mergeList{}
+	ml.add(tables)
+	updates := mergeSingle(db.GetState().Meta, ml)
+	between()
+	db.UpdateState(func(state *DbState) {
+		m := *state.Meta
+		meta.Apply(&m, updates)
+		state.Meta = &m
+	})
+}
+
+// vpersistSplit persists like Database.persist - compute outside, apply and write the state
+// inside UpdateState - with `between` running in the gap.
+func vpersistSplit(db *Database, between func()) {
+	exec := &execPersistSingle{}
+	db.GetState().Meta.Persist(exec.Submit)
+	updates := exec.Results()
+	between()
+	db.UpdateState(func(state *DbState) {
+		m := *state.Meta
+		meta.Apply(&m, updates)
+		state.Meta = &m
+		state.Off = state.Write()
+	})
+}
